@@ -223,6 +223,8 @@ fn learn_map_order(m: &BTreeMap<String, V>, keys: &[[u8; 16]]) -> Result<Vec<Str
                 hash_keys: vec![],
                 via_json: false,
                 threads: true,
+                named: BTreeMap::new(),
+                clock_ns: None,
             };
             if bound {
                 case.bindings.insert("m__".into(), V::Map(m.clone()));
